@@ -64,14 +64,14 @@ CHECKS = {
          "DESIGN.md §4 C07"),
  "C11": ("abstract interpretation of the statement rewriter on symbolic ASTs of every supported kind (dispatch, factory totality, closing of thunk bodies), termination-checker table vs spec reference, block tables, loop-call template, branch pass, eta table, import-name dataflow",
          "Decides the classes of compiler panics and ill-formed output the property names: every supported statement kind is accepted, the AST factory and the termination checker never panic on their optional parts / ordinary breaks, every statement list wrapped into a thunk ends in a return on its path, no nil node reaches a loop call, select is a break target in nested closures, closures over builtins/conversions/generics are kept, seq is referred to under its import name.",
-         "'The generated package type-checks for every input' is not decided; D15, D16, D21 are recorded build-breaking findings.",
+         "'The generated package type-checks for every input' is not decided; D15 and D16 are recorded build-breaking findings (D21, D30 repaired). Also decided: a yield whose operand is assignable to the element type is never rejected; panic call sites are calls of the builtin; a last statement answering 'nothing follows' has closed its block; kind tags of pushed statements; qualified names under every import form; a tree that does not use the API passes through.",
          "DESIGN.md §4 C11"),
  "C13": ("resolved enumeration of all Cursor mutator call sites + abstract evaluation of the file-level callbacks over node kinds (edits only under API-membership predicates) + call-graph confinement; eta-reduction table; pass0 in nested closures; branch pass boundary",
          "Decides that bystander code is only touched under a generator / iterator-type / Yield-call predicate, that the one pass rewriting arbitrary closures (eta reduction) keeps every closure whose reduction changes meaning, that returns/initialisers/branches inside ordinary closures nested in generators are left alone, and that no declaration is added.",
-         "Loss of free-floating comments is behaviour-neutral except for //go: directives inside co files (not decided); go-imports trusted.",
+         "Doc comments in directive positions (file, declaration, spec) are decided to survive the installed comment list (collected per node type, traversal not pruned, merged in source order); loss of free-floating and line comments is behaviour-neutral and not judged; go-imports trusted.",
          "DESIGN.md §4 C13"),
- "C15": ("resolved-program scans (map ranges, nondeterminism sources), per-file reset path rule on rewriteFile, counter lifetime analysis of gensym, event-order rule on the intermediate directory",
-         "Decides the absence of every source of run-to-run or context dependence in the output path: no map iteration, no time/rand/pid/env, per-file state re-initialised before the first pass, unique-name counter advanced once per temporary and alive for exactly one file, intermediate directory emptied before use and removed afterwards, iterator temporaries named through gensym.",
+ "C15": ("resolved-program scans (map ranges, nondeterminism sources), per-file reset path rule on rewriteFile, counter lifetime analysis of gensym, event-order rule on the intermediate directory, SSA backward slice of memo tables (key determines value)",
+         "Decides the absence of every source of run-to-run or context dependence in the output path: no map iteration, no time/rand/pid/env, per-file state re-initialised before the first pass, unique-name counter advanced once per temporary and alive for exactly one file, intermediate directory emptied before use and removed afterwards, iterator temporaries named through gensym, no table outliving a call filled with a value its key does not determine (OPT.MEMO), no stage loaded with type errors suppressed (DET.PARTIALTYPES: recorded finding D31).",
          "File order of go/packages and the output of go/printer are trusted; byte identity itself is not compared.",
          "DESIGN.md §4 C15"),
  "C16": ("abstract interpretation of GoGen / cogen with constant folding of string functions (file filter and both printers evaluated on concrete names), header constant checked with go/build/constraint, event-order rule on the intermediate directory",
